@@ -26,7 +26,7 @@ Definition ePPhase (p : pphase) : list Z := [index_of pphase_beq p all_pphases].
 Definition ePgPhase (p : pgphase) : list Z := [index_of pgphase_beq p all_pgphases].
 
 Definition dPolicy : dec policy :=
-  let* evs := dList dEvent in let* a := dAction in let* ex := dOpt dZ in let* tm := dBool in
+  let* evs := dList dEvent in let* a := dAction in let* ex := dOpt dZ in let* tm := dZ in
   ret (mkPolicy evs a ex tm).
 
 (* resources / priority of a task: used by C06 only *)
@@ -96,6 +96,7 @@ Definition dOp : dec op :=
   | 11 => let* sp := dSpec in ret (OReplaceJob sp)
   | 12 => ret OJobDeleting
   | 13 => ret OStaleJob
+  | 14 => ret OFire
   | _ => fail
   end.
 
